@@ -207,6 +207,75 @@ def shift_cases(draw, tier):
     return c
 
 
+# ----------------------------------------------------------------------------- long trajectories (size-dependent code paths)
+def run_long(case):
+    """10^3 - 10^5 frames: positions, displacements, running sum, cumulative displacements and distances at every frame (vectorised)"""
+    T, N = case['frames'], case['atoms']
+    M = np.array(case['lattice']['matrix'], float)
+    t_ = np.arange(T, dtype=float).reshape(T, 1, 1)
+    a_ = np.arange(1, N + 1, dtype=float).reshape(1, N, 1)
+    v = np.array(case['velocity'], float).reshape(1, 1, 3)
+    amp = np.array(case['amplitude'], float).reshape(1, 1, 3)
+    # drift + oscillation + one hop: a pure function of the case; per component |step| <= 0.19 + 2 * 0.05 + 0.15 < 1/2
+    path = np.array(case['x0'], float).reshape(1, N, 3) + t_ * v * a_ / N + amp * np.sin(t_ * a_ * case['omega']) + (t_ >= case['hop_at']) * 0.15
+    form = case['form']
+    shift = (np.floor(np.sin(t_ * 1.7 + a_) * 2.5)) if form == 'shifted' else 0.0  # whole lattice vectors, different in every frame
+    inp = (path - np.floor(path)) + shift if form in ('wrapped', 'shifted') else path
+    if form == 'displacements':
+        steps = np.concatenate([np.zeros_like(path[:1]), np.diff(path, axis=0)], axis=0)
+        t = cases.trajectory(steps, ['Li'] * N, M, 2e-15, 300.0, coords_are_displacement=True, base_positions=path[0] - np.floor(path[0]))
+    else:
+        t = cases.trajectory(inp, ['Li'] * N, M, 2e-15, 300.0)
+    tol = 1e-9 * max(1.0, float(np.abs(path - path[:1]).max()))  # round-off of a running sum over T frames
+    for op in case['order']:
+        if op == 'positions':
+            check_positions(gcall(lambda: t.positions), path, f'{T} frames ({form})', tol)
+        elif op == 'displacements':
+            disp = np.array(gcall(lambda: t.displacements))
+            if disp.shape != path.shape or np.any(disp[0] != 0) or np.abs(disp).max() > 0.5:
+                raise Violation('displacements-minimum-image', f'{T} frames: shape {disp.shape}, first frame {disp[0].tolist()}, largest component {np.abs(disp).max()!r}')
+            err = np.abs(disp[1:] - np.diff(path, axis=0))
+            if err.max() > 1e-9:
+                k = np.unravel_index(np.argmax(err), err.shape)
+                raise Violation('displacements-equal-frame-difference-mod-1', f'{T} frames ({form}): step into frame {k[0] + 1} of atom {k[1]} axis {k[2]} reported {disp[1:][k]!r}, frames differ by {np.diff(path, axis=0)[k]!r}')
+            err = oracle.circ_diff(path[0][None] + np.cumsum(disp, axis=0), path)
+            if err.max() > tol:
+                raise Violation('running-sum-reproduces-frames', f'{T} frames ({form}): frame {int(np.argmax(err.max(axis=(1, 2))))} deviates by {err.max():.3e}')
+        elif op == 'cumulative':
+            cum = np.array(gcall(lambda: t.cumulative_displacements))
+            err = np.abs(cum - (path - path[:1]))
+            if cum.shape != path.shape or err.max() > tol:
+                raise Violation('cumulative-displacement-equals-unwrapped-path', f'{T} frames ({form}): frame {int(np.argmax(err.max(axis=(1, 2))))} deviates by {err.max():.3e}')
+        elif op == 'distances':
+            dist = np.array(gcall(t.distances_from_base_position))
+            wd = np.linalg.norm((path - path[:1]) @ M, axis=-1).T
+            if dist.shape != wd.shape or np.abs(dist - wd).max() > 1e-8 * max(1.0, wd.max()):
+                raise Violation('distance-equals-cartesian-length', f'{T} frames ({form}): max deviation {np.abs(dist - wd).max() if dist.shape == wd.shape else dist.shape}')
+        elif op == 'slice':
+            k = case['hop_at']
+            sl = gcall(lambda: t[k:])
+            check_positions(gcall(lambda: sl.positions), path[k:], f'slice [{k}:] of {T} frames ({form})', tol)
+            cum = np.array(gcall(lambda: sl.cumulative_displacements))
+            if np.abs(cum - (path[k:] - path[k:k + 1])).max() > tol:
+                raise Violation('cumulative-displacement-equals-unwrapped-path', f'slice [{k}:] of {T} frames ({form})')
+    return {'nontrivial': True, 'labels': [case['lattice']['family'], 'form-' + form, 'frames>65535' if T > 65535 else ('frames>8192' if T > 8192 else 'frames<=8192')]}
+
+
+@st.composite
+def long_cases(draw, tier):
+    big = tier == 'thorough'
+    near = [2**k + d for k in range(10, 18 if big else 17) for d in (-1, 0, 1)]
+    T = draw(st.one_of(st.sampled_from(near), st.integers(1000, 300000 if big else 140000), st.sampled_from([10000, 20000, 50000, 100000, 100001])))
+    N = draw(st.sampled_from([2, 1, 3]))
+    return {'lattice': draw(gen.lattices()), 'frames': T, 'atoms': N,
+            'x0': [[draw(st.sampled_from([0.0, 0.5, 0.97, 0.25, 1 - 1e-16])) for _ in range(3)] for _ in range(N)],
+            'velocity': [draw(st.sampled_from([0.11, -0.07, 0.0, 0.0003, -0.19])) for _ in range(3)],
+            'amplitude': [draw(st.sampled_from([0.05, 0.0, 0.02])) for _ in range(3)],
+            'omega': draw(st.sampled_from([0.7, 0.013, 2.9])), 'hop_at': draw(st.integers(1, T - 1)),
+            'form': draw(st.sampled_from(['wrapped', 'unwrapped', 'shifted', 'displacements'])),
+            'order': draw(st.permutations(['positions', 'displacements', 'cumulative', 'distances', 'slice']))}
+
+
 _SPECIAL_VALUES = sorted({sp + k for sp in gen.FACE_SPECIALS for k in (-2, -1, 0, 1, 3)})
 
 
@@ -233,6 +302,9 @@ SUBS = [
     Sub(name='enum-face-specials', kind='enum', run=run_wrap, size=special_size, case_at=special_case, exhaustive=True,
         rule='complete enumeration: every ordered pair of the face-special coordinates (0, 1, -1e-17, 1e-17, 1-1e-16, 1-2^-53, +-2^-60, 0.5, k/n, each also shifted by -2, -1, 1, 3 cells) as consecutive frames of one atom in a triclinic cell',
         shards={'quick': 16, 'thorough': 16}),
+    Sub(name='long-trajectories', kind='hyp', run=run_long, strategy=long_cases,
+        rule='1 000 - 140 000 (300 000) frames (every power of two from 2^10 to 2^16 (2^17) and its neighbours, round numbers, arbitrary lengths) x 1-3 atoms in all lattices, drift + oscillation + one hop with hundreds of face crossings, given wrapped / unwrapped / shifted by other lattice vectors in every frame / as displacements: positions, per-step displacements, running sum, cumulative displacements, distances and a late slice checked at every frame in a generated order of queries (size-dependent code paths)',
+        n={'quick': 4, 'thorough': 20}, shards={'quick': 8, 'thorough': 16}),
     Sub(name='api-histories', kind='machine', run=lambda case: __import__('pbt.props.c15', fromlist=['run_log']).run_log(case),
         machine=lambda tier: __import__('pbt.props.c15', fromlist=['TrajMachine']).TrajMachine,
         rule='call histories (the state machine shared with C15) run for this property: a pool of live trajectories under read-only queries, filter, slices, split and in-place extend; after every step the positions lie in [0,1) and equal the reference model modulo 1 and displacements / cumulative displacements / distances equal the model, so values that go stale after extend or are altered by another call are found',
